@@ -169,8 +169,10 @@ inline void pgp_build(PgpWorld &W, bool with_experimental = true) {
 			PGP::PacketSecEncodeExperimental108(now, p, q, g, g, y, n, t, i, qs, qual, capl, cik, x, x, nopw, s108);
 			PGP::PacketSecEncodeExperimental107(now, p, q, g, g, y, n, t, i, qs, qual, qs, qual, capl, cik, x, x, pw, s107);
 			PGP::PacketSsbEncodeExperimental109(now, p, q, g, g, y, n, t, i, qs, qual, vi, cik, x, x, nopw, s109);
-			{ Oct a; app(a, s108); app(a, uid); app(a, s109); W.add("prv-tdss108-telg109", "prv", a, TMCG_OPENPGP_ARMOR_PRIVATE_KEY_BLOCK); }
+			Oct s107n; PGP::PacketSecEncodeExperimental107(now, p, q, g, g, y, n, t, i, qs, qual, qs, qual, capl, cik, x, x, nopw, s107n);
+			{ Oct a; app(a, s107n); app(a, uid); app(a, s109); W.add("prv-tdss107-telg109", "prv", a, TMCG_OPENPGP_ARMOR_PRIVATE_KEY_BLOCK); }
 			{ Oct a; app(a, s107); app(a, uid); W.add("prv-tdss107-pw", "prv", a, TMCG_OPENPGP_ARMOR_PRIVATE_KEY_BLOCK); }
+			{ Oct a; app(a, s108); app(a, uid); W.add("prvpkt-tdss108", "prvpkt", a, TMCG_OPENPGP_ARMOR_PRIVATE_KEY_BLOCK); }   // packet decoder only: no block parser accepts algorithm 108
 			for (auto m : qual) gcry_mpi_release(m); for (auto m : vi) gcry_mpi_release(m); for (auto &r : cik) for (auto m : r) gcry_mpi_release(m);
 			gcry_mpi_release(n); gcry_mpi_release(t); gcry_mpi_release(i); gcry_mpi_release(qs);
 			gcry_mpi_release(p); gcry_mpi_release(q); gcry_mpi_release(g); gcry_mpi_release(y); gcry_mpi_release(x);
